@@ -332,6 +332,11 @@ def bitLenAux : Nat → Nat → Nat
 
 def bitLen (x : UInt8) : Nat := bitLenAux 8 x.toNat
 
+/-- `DiffPos` once one of the strings is exhausted: the rest of the other one is compared with zero bytes -/
+def diffPosZero : List UInt8 → Nat → Nat
+  | [], _ => 0
+  | x :: xs, i => if x == 0 then diffPosZero xs (i + 1) else (i + 1) * 8 - bitLen x + 1
+
 /-- the scanning loop of `DiffPos`; `i` counts the bytes consumed.
 ```go
 for x == y {
@@ -341,10 +346,6 @@ for x == y {
 for xor := x ^ y; xor != 0; xor >>= 1 { j++ }
 return i*8 - j + 1
 ``` -/
-def diffPosZero : List UInt8 → Nat → Nat
-  | [], _ => 0
-  | x :: xs, i => if x == 0 then diffPosZero xs (i + 1) else (i + 1) * 8 - bitLen x + 1
-
 def diffPosFrom : List UInt8 → List UInt8 → Nat → Nat
   | [], ys, i => diffPosZero ys i
   | x :: xs, [], i => diffPosZero (x :: xs) i
@@ -575,7 +576,8 @@ def delete (t : Patricia V) (key : BitString) : Outcome (Patricia V × Option V)
 def deleteMin (t : Patricia V) : Outcome (Patricia V × Option (Key × V)) := t.deleteWith none false
 def deleteMax (t : Patricia V) : Outcome (Patricia V × Option (Key × V)) := t.deleteWith none true
 
-def deleteAll (t : Patricia V) : Patricia V := { t with size := 0, root := none }
+/-- `DeleteAll`: `t.size = 0; t.root = nil` (every node becomes unreachable; the store is emptied) -/
+def deleteAll (_t : Patricia V) : Patricia V := {}
 
 /-- `_min(n)`: `if n.left.bp <= n.bp { return n.left }; return _min(n.left)` -/
 def minLoop (t : Patricia V) : Nat → Option Nat → Outcome (Option (Key × V))
